@@ -93,7 +93,7 @@ def run(ctx):
                 'names compared with the brute-force ranking of the statement (ties between incomparable provided '
                 'interfaces skipped); distinct = distinct worlds')
     ctx.bounds = 'interfaces<=5, registries<=3, registrations<=6, arity<=3'
-    trials = 250 if ctx.tier == 'quick' else 3000
+    trials = 400 if ctx.tier == 'quick' else 5000
     for t in range(trials):
         if ctx.out_of_time() or ctx.too_many():
             return
